@@ -26,6 +26,9 @@ Prop(e) ==
       <<"missing-information-is-half", (e.kind \in {"date", "indiv"} /\ e.missing) => e.s = Half>>,
       <<"empty-lists", e.kind = "list" => ((e.parts[1] = 0 /\ e.parts[2] = 0 => e.s = Scale)
                                           /\ ((e.parts[1] = 0) # (e.parts[2] = 0) => e.s = Half))>>,
+      \* depends only on the distance in years: the documented parabola 1 - (distance / maxYears)^2
+      <<"date-similarity-is-a-function-of-the-distance", (e.kind = "date" /\ ~e.missing) =>
+             Close(e.s, Max2(0, Scale - (e.dist3 * e.dist3) \div (e.max * e.max * 100)), 40)>>,
       <<"zero-beyond-maximum", (e.kind = "date" /\ ~e.missing /\ e.dist3 > e.max * 1000 + 1) => e.s = 0>>  >>
 Failed(e) == SelectSeq(Prop(e), LAMBDA c : ~c[2])
 
